@@ -73,7 +73,37 @@ func c08Generate(rng *rand.Rand, withStrings bool) c08Prog {
 	}
 	steps := 4 + rng.IntN(18)
 	for s := 0; s < steps && !oob; s++ {
-		switch op := rng.IntN(10); {
+		switch op := rng.IntN(12); {
+		case op >= 10: // appends inside a loop; positions that exist only after some iterations are
+			// read behind a length guard, earlier in the loop body than the append (or in the
+			// loop condition), through compile-time-known and opaque indices
+			reps := 2 + rng.IntN(4)
+			k := int64(length + rng.IntN(reps))
+			ie, _ := mkIndex(k)
+			tn++
+			qn, gn := fmt.Sprintf("q%d", tn), fmt.Sprintf("g%d", tn)
+			qv := &gen.Var{Name: qn, T: I32}
+			guard := &gen.If{Cond: &gen.Bin{Op: ">", L: &gen.Len{X: d}, R: lit(I32, k), T: gen.TBool}, Then: []gen.Stmt{
+				&gen.Let{Name: gn, T: et, Init: &gen.Index{X: d, I: ie, T: et}, Annot: true}, &gen.Print{X: &gen.Var{Name: gn, T: et}}}}
+			app := &gen.Append{Arr: d, Val: &gen.Cast{X: &gen.Bin{Op: "+", L: qv, R: lit(I32, int64(3+rng.IntN(40))), T: I32}, T: et}}
+			switch rng.IntN(3) {
+			case 0:
+				main = append(main, &gen.Let{Name: qn, T: I32, Init: lit(I32, 0), Annot: true},
+					&gen.While{Cond: &gen.Bin{Op: "<", L: qv, R: lit(I32, int64(reps)), T: gen.TBool}, Body: []gen.Stmt{guard, app,
+						&gen.Assign{LHS: qv, Op: "=", RHS: &gen.Bin{Op: "+", L: qv, R: lit(I32, 1), T: I32}}}})
+			case 1:
+				main = append(main, &gen.Let{Name: qn, T: I32, Init: lit(I32, 0), Annot: true},
+					&gen.While{Cond: &gen.Bin{Op: "<", L: &gen.Len{X: d}, R: lit(I32, int64(length+reps)), T: gen.TBool}, Body: []gen.Stmt{guard, app,
+						&gen.Assign{LHS: qv, Op: "=", RHS: &gen.Bin{Op: "+", L: qv, R: lit(I32, 1), T: I32}}}})
+			default:
+				lo, hi := fmt.Sprintf("lo%d", tn), fmt.Sprintf("hi%d", tn)
+				main = append(main, &gen.Let{Name: lo, T: I32, Init: lit(I32, 0), Annot: true}, &gen.Let{Name: hi, T: I32, Init: lit(I32, int64(reps)), Annot: true},
+					&gen.ForRange{Var: qn, T: I32, Lo: &gen.Var{Name: lo, T: I32}, Hi: &gen.Var{Name: hi, T: I32}, Body: []gen.Stmt{guard, app}})
+			}
+			length += reps
+			tn++
+			ln := fmt.Sprintf("n%d", tn)
+			main = append(main, &gen.Let{Name: ln, T: I32, Init: &gen.Len{X: d}, Annot: true}, &gen.Print{X: &gen.Var{Name: ln, T: I32}})
 		case op < 4: // append (crossing the growth thresholds 4, 8, 16)
 			reps := 1
 			if rng.IntN(4) == 0 {
